@@ -314,7 +314,7 @@ DEFAULT_WEIGHTS = {
     "merge": 0, "combine": 0, "split": 0, "unsat_core": 0, "pickle": 0, "pickle_expr": 0, "g_truth": 0, "new": 0,
     "add_replacement": 0, "split_recombine": 0, "merge3": 0,
     # multi-step shapes random walks rarely produce (DESIGN 9.6.1); cheap, so on everywhere with a small weight
-    "exhaust_batch": 2, "span_branch_add": 0, "late_unsat": 2, "bridge_split": 0, "split_cross": 0, "branch_simplify_add": 0,
+    "exhaust_batch": 2, "span_branch_add": 0, "late_unsat": 2, "bridge_split": 0, "split_cross": 0, "branch_simplify_add": 0, "pairwise_derive": 0,
 }
 
 QUERY_KINDS = ("sat", "probe", "eval", "batch_eval", "min", "max", "solution", "is_true", "is_false")
@@ -674,6 +674,9 @@ class HistoryGen:
             return
         elif kind == "split_cross":
             self.macro_split_cross(hi, h)
+            return
+        elif kind == "pairwise_derive":
+            self.macro_pairwise_derive(hi, h, live)
             return
         elif kind == "branch_simplify_add":
             self.macro_branch_simplify_add(hi, h, live)
@@ -1063,6 +1066,42 @@ class HistoryGen:
                 self.emit(self.exact_op(h, {"op": "solution", "h": reader, "e": vx, "v": r.below(1 << self.vars[x]), "extra": []}))
             else:
                 self.emit(self.exact_op(h, {"op": q, "h": reader, "e": vx, "signed": False, "extra": []}))
+
+    def macro_pairwise_derive(self, hi, h, live):
+        """C16: a pairwise contradiction added one constraint at a time (the cheap cached core), then a solver DERIVED from
+        that one (merge with a satisfiable sibling; split), then unsat_core() on the derived solver"""
+        r = self.r
+        if h.ref.kind != "enum" or len(live) >= self.max_handles:
+            return
+        eg = self.egf(h)
+        if len(eg.bvs) < 2:
+            return
+        x, y = r.sample(eg.bvs, 2)
+        wx, wy = self.vars[x], self.vars[y]
+        k1 = r.below(1 << wx)
+        k2 = (k1 + r.range(1, (1 << wx) - 1)) % (1 << wx)
+        self.emit({"op": "new", "cls": h.cls, "kw": dict(h.kw or {})})
+        a_i = len([z for z in self.handles if z.alive]) - 1
+        self.emit({"op": "add", "h": a_i, "cs": [["eq", ["var", x], ["const", k1, wx]]]})
+        self.emit({"op": "add", "h": a_i, "cs": [["eq", ["var", y], ["const", r.below(1 << wy), wy]]]})
+        self.emit({"op": "add", "h": a_i, "cs": [["eq", ["var", x], ["const", k2, wx]]]})
+        if r.chance(50):
+            self.emit({"op": "unsat_core", "h": a_i})
+        if r.chance(60):
+            self.emit({"op": "new", "cls": h.cls, "kw": dict(h.kw or {})})
+            b_i = a_i + 1
+            self.emit({"op": "add", "h": b_i, "cs": [["ne", ["var", y], ["const", r.below(1 << wy), wy]]]})
+            conds = [self.eg.boolean(1) for _ in range(2)]
+            if self.flag:
+                fw = self.vars[self.flag]
+                conds = [["eq", ["var", self.flag], ["const", i, fw]] for i in range(2)]
+            self.emit({"op": "merge", "h": a_i, "others": [b_i], "conds": conds})
+            self.emit({"op": "unsat_core", "h": -1})
+            self.emit({"op": "sat", "h": -1, "extra": []})
+        else:
+            self.emit({"op": "split", "h": a_i})
+            self.unknown_handles = min(6, self.unknown_handles + 2)
+            self.emit({"op": "unsat_core", "h": {"h_var": y, "h": a_i}})
 
     def macro_merge3(self, hi, h, live):
         """C15: a three-way merge in which two participants share state (branches of one base) and the third has an
@@ -1525,7 +1564,7 @@ PROFILES = {
         "length": (3, 30),
         "keep_sat_pct": 25,
         "weights": {"unsat_core": 18, "add": 30, "branch": 6, "simplify": 5, "eval": 6, "min": 3, "max": 3, "solution": 3,
-                    "batch_eval": 2, "probe": 5, "split": 4, "merge": 3, "combine": 3},
+                    "batch_eval": 2, "probe": 5, "split": 4, "merge": 3, "combine": 3, "pairwise_derive": 5},
         "max_handles": 6,
         "never_swarm_out": ("unsat_core",),
         "lru_sizes": [4, 16, 64, 10000],
